@@ -32,6 +32,9 @@ type boundAn struct {
 // variadicHelpersRejectEmpty: every variadic arity helper of the parser rejects an empty argument list
 // (its success returns are preceded by an append and it returns an arity error on an immediate `)`).
 func variadicHelpersRejectEmpty(p *Program) bool {
+	if ok, decided := variadicRejectsEmptyTPI(p); decided {
+		return ok
+	}
 	found := false
 	for _, fd := range p.FuncDecls(p.Parser) {
 		if fd.Recv == nil || !strings.HasPrefix(fd.Name.Name, "function") || fd.Name.Name == "function" {
